@@ -126,6 +126,20 @@ func init() {
 				Bound: fmt.Sprintf("all edge lists with <=%d edges x greedy x {ns,lp} x 4 size-aware positioners x splines", d-1)},
 			{Name: "G-deep", Space: spaceG(d+1, d+1, tierPick(tier, 0, 6), nil), Eval: stdEval("C06", staticGrid(g5), or),
 				Bound: fmt.Sprintf("all edge lists with %d edges x greedy x {ns,lp} x 4 size-aware positioners x {polyline,ortho} x per-node sizes", d+1)},
+			{Name: "component-next-to-long-edges", Space: func(emit func(Input)) {
+				spaceG(3, 5, 4, func(in Input, a *Analysis) bool { return a.NComp == 1 })(func(in Input) {
+					n := in.N()
+					emit(Input{E: append(append([]int(nil), in.E...), n, n+1)})
+				})
+			}, Eval: stdEval("C06", func(in Input, a *Analysis) []Cfg {
+				var out []Cfg
+				for _, p2 := range allP2 {
+					for _, p4 := range []int{0, 1} {
+						out = append(out, Cfg{P2: p2, P4: p4, P5: 2, SZ: 8, WMask: a.N - 2, NS: 4, LS: 8, TH: -1})
+					}
+				}
+				return out
+			}, or), Bound: "every connected edge list with 3..5 edges on <=4 nodes (parallel long edges included) followed by a second component of two big, tall nodes x {ns,lp} x {sink,valign} x polyline: bends of the first component against the nodes of the second"},
 			{Name: "G4-height-rotations", Space: spaceG(2, 4, 0, nil), Eval: stdEval("C06", func(in Input, a *Analysis) []Cfg {
 				var out []Cfg
 				for rt := 1; rt < len(tabW); rt++ {
